@@ -104,4 +104,9 @@ def searchGo (n : Nat) (re : Re) : Str → Nat → Option (Nat × Nat)
 
 def search (re : Re) (s : Str) : Option (Nat × Nat) := searchGo s.length re s 0
 
+/-- `re` matches at no position of `s` (incl. the end): `Pattern.search` finds nothing. -/
+def matchesNowhere (n : Nat) (re : Re) : Str → Bool
+  | [] => (matchR n re []).isEmpty
+  | c :: t => (matchR n re (c :: t)).isEmpty && matchesNowhere n re t
+
 end NunavutVerif.Regex
